@@ -830,6 +830,16 @@ void simomp_preempt_slow(void)
     }
 }
 
+void simomp_preempt_soon(void)
+{
+    /* faults and preemptions placed uniformly mostly revisit the same states: put some right after the
+       start of a task body, where two bodies of the same kind are most likely to overlap */
+    if (W.explicit_decisions || !W.p_burst || g_nfib < 2) return;
+    if (!sim_rng_chance(&g_srng, W.p_burst)) return;
+    uint64_t at = g_accesses + 1 + sim_rng_below(&g_srng, W.burst_len ? W.burst_len : 64);
+    if (at < g_next_preempt) g_next_preempt = at;
+}
+
 void simomp_reset(void)
 {
     /* called between plans, on the root fiber, with no parallel region active */
